@@ -243,10 +243,10 @@ func runCheck(o checkOpts) checkOutcome {
 	} else {
 		say("SMT files kept in %s\n", dir)
 	}
-	timeout := 20
+	timeout := 30
 	cross := false
 	if o.tier == "thorough" {
-		timeout = 60
+		timeout = 90
 		cross = true
 	}
 	// keep only obligations relevant to the property (plus covers)
